@@ -1143,13 +1143,15 @@ func eq(lhs, rhs reflect.Value) bool {
 		return ok && v1 == v2
 	}
 
-	// Arrays and maps are compared with a deep equal
+	// Arrays and maps are compared with a deep equal. (Don't use
+	// reflect.DeepEqual: it distinguishes numbers by their Go type,
+	// e.g. the int returned by $count from the float64 of a literal.)
 	if jtypes.IsArray(lhs) && jtypes.IsArray(rhs) {
-		return reflect.DeepEqual(lhs.Interface(), rhs.Interface())
+		return jtypes.DeepEqual(lhs, rhs)
 	}
 
 	if jtypes.IsMap(lhs) && jtypes.IsMap(rhs) {
-		return reflect.DeepEqual(lhs.Interface(), rhs.Interface())
+		return jtypes.DeepEqual(lhs, rhs)
 	}
 
 	// All other types (e.g. functions) are
